@@ -843,8 +843,12 @@ class StaticVector : public StaticVectorBase<T, SizeType> {
 
   template <class VectorType>
   void swap2_impl(VectorType &o) noexcept(is_swap_noexcept<T>::value) {
-    swap_deep(this->begin(), this->size(), o.begin(), o.size());
-    swap_sizetype(this->msize(), o.msize());
+    const SizeType mySize = this->size();
+    const typename VectorType::size_type oSize = o.size();
+    swap_deep(this->begin(), mySize, o.begin(), oSize);
+    // setSize maintains the small state encoding if 'o' is a SmallVector
+    this->setSize(static_cast<SizeType>(oSize));
+    o.setSize(static_cast<typename VectorType::size_type>(mySize));
   }
 
   // Adjust capacity methods take uintmax_t as parameter to check for size_type overflow
@@ -958,19 +962,34 @@ class DynamicVector : public DynamicVectorBaseTypeDispatcher<T, Alloc, SizeType,
   template <class OSizeType, class OGrowingPolicy>
   void swap2_impl(StaticVector<T, OSizeType, OGrowingPolicy> &o) noexcept(is_swap_noexcept<T>::value) {
     // Here 'o' cannot grow so we cannot swap any dynamic storage. Deeply swap all elements
-    swap_deep(this->begin(), this->size(), o.begin(), o.size());
-    swap_sizetype(this->msize(), o.msize());
+    const SizeType mySize = this->size();
+    const OSizeType oSize = o.size();
+    swap_deep(this->begin(), mySize, o.begin(), oSize);
+    // setSize maintains the small state encoding of a SmallVector
+    this->setSize(static_cast<SizeType>(oSize));
+    o.setSize(static_cast<OSizeType>(mySize));
   }
 
   template <class OAlloc, class OSizeType, bool OWithInlineElems>
-  void swap2_impl(DynamicVector<T, OAlloc, OSizeType, OWithInlineElems> &o) noexcept(is_swap_noexcept<T>::value) {
+  void swap2_impl(DynamicVector<T, OAlloc, OSizeType, OWithInlineElems> &o) {
     if (this->canSwapDynStorage(o)) {
-      this->swapDynStorage(o);
+      // Both vectors use dynamic storage. Take the size words while both states are still consistent
+      // (for a SmallVector their meaning depends on the capacity word), and exchange the capacities first:
+      // this is the only step that can throw, and it does so before anything is modified.
+      SizeType &mySize = this->msize();
+      OSizeType &oSize = o.msize();
       swap_sizetype(this->mcapacity(), o.mcapacity());
+      swap_sizetype(mySize, oSize);
+      this->swapDynStorage(o);
     } else {
-      swap_deep(this->begin(), this->size(), o.begin(), o.size());
+      // adjustEachOtherCapacity made sure that each size fits in the other vector (and in its size type)
+      const SizeType mySize = this->size();
+      const OSizeType oSize = o.size();
+      swap_deep(this->begin(), mySize, o.begin(), oSize);
+      // setSize maintains the small state encoding of a SmallVector
+      this->setSize(static_cast<SizeType>(oSize));
+      o.setSize(static_cast<OSizeType>(mySize));
     }
-    swap_sizetype(this->msize(), o.msize());
   }
 
   // Adjust capacity methods take uintmax_t as parameter to check for size_type overflow
